@@ -351,7 +351,7 @@ def check_C07(ctx):
     rep.rule("M2", "derived max_size_of returns the maximum over align_of::<Self>() and the unit of every field")
     rep.rule("ALIGN", "all four align implementations move by pad_align_to(position of self, unit(T)); writers emit only zero bytes; a path that emits nothing knows the padding is zero")
     rep.rule("POS", "position-tracking wrappers advance by exactly the bytes moved, after success; Serialize::serialize returns the position after the last write")
-    wire_props(ctx, ("full", "eps"), ("W4", "W5"), 56)
+    wire_props(ctx, ("full", "eps"), ("W4", "W5-view"), 56)
     try:
         u, cname = units_universe(ctx)
     except ExportError as ex:
@@ -381,6 +381,9 @@ def check_C16(ctx):
     u, w, ts, exp = ctx.triples("default", CORPUS)
     recs = rules_hash.collect(u, rep)
     rules_hash.rule_H4(u, recs, rep)
+    for t in ts:
+        if t.crate == "epserde" and t.des_impl is None:
+            rules_wire.check_triple(t, exp, rep, modes=(), want=("W5-view", "PROB"))
     byname = {}
     for t in ts:
         byname[t.key] = t
